@@ -3,6 +3,7 @@
 package mc
 
 import (
+	"fmt"
 	"strings"
 
 	"cosmossdk.io/math"
@@ -67,6 +68,7 @@ var wideV3Ops = []string{"v14_swap_2hop_atom_usdc_elys", "v41_swap_out_2hop_elys
 var widePriceOps = []string{"price_elys_2", "price_elys_1.2", "price_elys_4.5", "price_elys_7"}
 
 func addWideOps(l *OpLib) {
+	addUpgradeOps(l)
 	for _, pr := range []string{"3", "2", "1.2", "4.5", "7"} {
 		pr := pr
 		l.Add("price_elys_"+pr, "price", 1, func(w *World, p *BlockPlan) { p.SetElys = pr })
@@ -271,4 +273,39 @@ var multiMsgSets = map[string][]string{
 	"C13": {"mc_claim_lp1", "exit_p1_10pct_lp1", "bond_lp1_L", "unbond_lp1_all", "ext_incentive_now_lp1"},
 	"C15": {"vest_eden_lp1", "cancel_vest_lp1", "claim_vesting_lp1", "vest_now_lp1", "mc_claim_lp1", "exit_p1_10pct_lp1"},
 	"C18": {"swap_in_p1_usdc_atom_L", "join_p1_all_t1", "exit_p1_all_t1", "perp_open_long_t1", "perp_close_full_t1", "llp_open_t1_x3", "llp_close_full_t1"},
+}
+
+// ---------------------------------------------------------------------------------------------
+// CHAIN UPGRADE. runModuleUpgrade runs the store migration(s) module mod registers for its PREVIOUS consensus
+// version, the way an upgrade handler does: module manager, configurator, a version map in which only mod is one
+// version back. Used only for modules whose registered migration reads no legacy-format state (amm: the
+// balance-matching migration; stablestake: empty in this version), so that every state reachable on this tree
+// is also a valid state of the previous version.
+func runModuleUpgrade(w *World, ctx sdk.Context, mod string) (err error) {
+	defer func() {
+		if r := recover(); r != nil {
+			err = fmt.Errorf("panic: %v", r)
+		}
+	}()
+	mm := w.App.ModuleManager()
+	vm := mm.GetVersionMap()
+	if vm[mod] < 2 {
+		return fmt.Errorf("module %s has no previous version", mod)
+	}
+	vm[mod]--
+	_, err = mm.RunMigrations(ctx, w.App.Configurator(), vm)
+	return err
+}
+
+func addUpgradeOps(l *OpLib) {
+	for _, mod := range []string{"amm", "stablestake"} {
+		mod := mod
+		l.Add("upgrade_"+mod+"_prev_version", "upgrade", 1, func(w *World, p *BlockPlan) {
+			p.Gov = append(p.Gov, func(ctx sdk.Context) error { return runModuleUpgrade(w, ctx, mod) })
+		})
+	}
+	// a token that is NOT an asset of the pool, sent straight to a pool's address (ibc vouchers end up there)
+	l.Add("donate_p2_atom_foreign", "donate_foreign", 1, func(w *World, p *BlockPlan) {
+		p.Txs = one("donor", &banktypes.MsgSend{FromAddress: w.A("donor").Addr.String(), ToAddress: w.PoolAddr(2).String(), Amount: sdk.NewCoins(C("uatom", 5000000))})
+	})
 }
